@@ -342,6 +342,10 @@ func checkC14(c *Ctx) {
 	// ---- O4 re-entrant handles ------------------------------------------------------------------
 	c.checkReentrantHandles("O4 reentrant-handles", []string{"m3", "prometheus", "multi"})
 
+	eng := c.newLockEngine()
+	c.checkFieldDiscipline("O4 field-discipline", []string{"m3", "internal/cache"}, eng, 12)
+	c.checkLockPairing("O4 lock-pairing", []string{"m3", "internal/cache", "m3/thriftudp"}, eng, 4)
+
 	// ---- O5 index guards ----------------------------------------------------------------------------
 	c.checkM3SearchGuards("O5 index-guard")
 }
@@ -555,7 +559,7 @@ func (c *Ctx) checkReentrantHandles(rule string, pkgs []string) {
 			}
 		}
 	}
-	c.floor(rule, n, 8)
+	c.floor(rule, n, 4)
 }
 
 // rootOfAddr walks an address back to its root without looking through loads of pointers held in
@@ -586,7 +590,7 @@ func rootOfAddr(v ssa.Value) ssa.Value {
 
 func (c *Ctx) checkM3SearchGuards(rule string) {
 	sites := c.searchSites(c.funcsOfPkg("m3"))
-	c.floor(rule, len(sites), 3)
+	c.floor(rule, len(sites), 2)
 	for i, s := range sites {
 		key := fmt.Sprintf("%s#%d", c.fnKey(s.fn), i)
 		c.sawFunc(c.fnKey(s.fn))
